@@ -638,7 +638,10 @@ func (s *shardController) newTermQuorum() (map[model.Server]*proto.EntryId, erro
 		case r := <-ch:
 			totalResponses++
 			if r.error == nil {
-				res[r.Server] = r.EntryId
+				// We don't consider the removed nodes as candidates for leader/followers
+				if listContains(s.shardMetadata.Ensemble, r.Server) {
+					res[r.Server] = r.EntryId
+				}
 			} else {
 				err = multierr.Append(err, r.error)
 			}
